@@ -150,8 +150,8 @@ theorem prov_step (s : St) (tr : Trace) (op : Op) (hs : SInv s) (hp : Prov s tr)
     intro c m _ hd hu h hm c'; subst h
     by_cases hcc : c' = c
     · subst hcc
-      rcases hm with ⟨rfl, _⟩ | rfl | ⟨n, rfl⟩ | ⟨x, rfl, _⟩ | ⟨x, t, e, rfl, _⟩ | ⟨n, rfl, hdf⟩
-      case inr.inr.inr.inr.inr =>
+      rcases hm with ⟨rfl, _⟩ | rfl | ⟨n, rfl⟩ | ⟨x, rfl⟩ | ⟨x, rfl, _⟩ | ⟨x, t, e, rfl, _⟩ | ⟨n, rfl, hdf⟩
+      case inr.inr.inr.inr.inr.inr =>
         intro _ _
         have hb := hs.barrierOk c' hu hd
         refine ⟨?_, fun l hl => by rw [hdf] at hl; cases hl⟩
@@ -188,7 +188,7 @@ theorem up_step_fact (s : St) (tr : Trace) (op : Op) (hs : SInv s) (hp : Prov s 
       rw [finish_outs, h3, hl, ← this]; rfl
   case upEvents =>
     intro c m l _ _ hu _ hl
-    rcases hl with ⟨_, rfl⟩ | ⟨x, _, rfl⟩ | ⟨x, t, e, _, rfl⟩ | ⟨n, _, rfl⟩ | ⟨n, _, rfl⟩ <;> simp [ev2]
+    rcases hl with ⟨_, rfl⟩ | ⟨x, _, rfl⟩ | ⟨x, t, e, _, rfl⟩ | ⟨n, _, rfl⟩ | ⟨n, _, rfl⟩ | ⟨x, _, rfl⟩ <;> simp [ev2]
   case sendSome =>
     intro d x c _ _
     simp only [sendRaw]
@@ -498,7 +498,7 @@ theorem rinv_step (s : St) (tr : Trace) (op : Op) (hs : SInv s) (hr : RInv s tr)
   case sendNone => intros; quiet
   case upEvents =>
     intro c m l _ _ _ _ hl
-    rcases hl with ⟨_, rfl⟩ | ⟨x, _, rfl⟩ | ⟨x, t, e, _, rfl⟩ | ⟨n, _, rfl⟩ | ⟨n, _, rfl⟩ <;> quiet
+    rcases hl with ⟨_, rfl⟩ | ⟨x, _, rfl⟩ | ⟨x, t, e, _, rfl⟩ | ⟨n, _, rfl⟩ | ⟨n, _, rfl⟩ | ⟨x, _, rfl⟩ <;> quiet
   case upHello => intros; quiet
   case echo => intros; quiet
   case hsIgnored => intros; quiet
@@ -861,7 +861,7 @@ theorem pending_after_features (s : St) (c d : Nat) (hs : SInv s) (hc : c < s.n)
 
 theorem pending_stable (s : St) (op : Op) (c x : Nat) (hs : SInv s) (hp : Pending s c x)
     (hbr : (s.conns c).broken = false)
-    (h1 : ∀ m, op = .msg c m → m = .hello ∨ m = .statsDesc ∨ (∃ n, m = .portStatus n) ∨ (∃ y, m = .echoRequest y) ∨ (∃ n, m = .packetIn n) ∨
+    (h1 : ∀ m, op = .msg c m → m = .hello ∨ m = .statsDesc ∨ (∃ n, m = .portStatus n) ∨ (∃ y, m = .echoRequest y) ∨ (∃ y, m = .echoReply y) ∨ (∃ n, m = .packetIn n) ∨
       (∃ y t e, m = .error y t e ∧ ¬ (y = x ∧ t = 1 ∧ e = 1)))
     (h2 : op ≠ .eof c) (h3 : op ≠ .disc c) :
     Pending (step R s op).1 c x := by
@@ -904,7 +904,7 @@ theorem broken_stable (s : St) (op : Op) (c : Nat) (hs : SInv s) (hb : (s.conns 
 /-- an operation that neither loses connection `c`, nor breaks its socket, nor is a handshake-relevant message on it -/
 def Harmless (c x : Nat) (op : Op) : Prop :=
   op ≠ .eof c ∧ op ≠ .disc c ∧ op ≠ .sockFail c ∧
-  ∀ m, op = .msg c m → m = .hello ∨ m = .statsDesc ∨ (∃ n, m = .portStatus n) ∨ (∃ y, m = .echoRequest y) ∨ (∃ n, m = .packetIn n) ∨
+  ∀ m, op = .msg c m → m = .hello ∨ m = .statsDesc ∨ (∃ n, m = .portStatus n) ∨ (∃ y, m = .echoRequest y) ∨ (∃ y, m = .echoReply y) ∨ (∃ n, m = .packetIn n) ∨
     (∃ y t e, m = .error y t e ∧ ¬ (y = x ∧ t = 1 ∧ e = 1))
 
 def stepS (cfg : Cfg) (s : St) (op : Op) : St := (step cfg s op).1
